@@ -42,12 +42,18 @@ P = {
                  "C05_F3_refuted", "C05_pinned_iff_spec", "C05_F1_pinned_refuted", "C05_F2_pinned_refuted", "C05_subject_from_verified_claims",
                  "C05_unsigned_rejected", "C05_modified_or_foreign_token_rejected", "C05_alg_confusion_rejected",
                  "C05_default_algorithms", "C05_merge_precedence", "C05_no_nil_matcher", "C05_exact_scopes",
-                 "C05_hierarchic_scopes", "C05_wildcard_scopes", "C05_nonvacuous"],
+                 "C05_hierarchic_scopes", "C05_wildcard_scopes", "C05_nonvacuous",
+                 "C05_cache_history_stateless", "C05_cache_history_spec", "C05_cache_transparent", "C05_cache_examples"],
     "streams": [{
         "name": "tokens", "pkg": "./internal/rules/mechanisms/authenticators", "test": "TestVerifC05",
         "overlay": {"internal/rules/mechanisms/authenticators/zz_verif_c05_test.go": "c05/c05_test.go"},
         "eval_module": "Run.Eval_C05", "check_term": "check true true",
         "n_quick": 1500, "n_thorough": 40000, "findings": {1: "C05-F1", 2: "C05-F2", 3: "C05-F3"},
+    }, {
+        "name": "keycache", "pkg": "./internal/rules/mechanisms/authenticators", "test": "TestVerifC05Cache",
+        "overlay": {"internal/rules/mechanisms/authenticators/zz_verif_c05_test.go": "c05/c05_test.go"},
+        "eval_module": "Run.Eval_C05", "check_term": "check_hist true true",
+        "n_quick": 500, "n_thorough": 12000, "findings": {1: "C05-F1", 2: "C05-F2", 3: "C05-F3"}, "shard": 150,
     }],
     "rule": "a jwt authenticator created by the real type registry from a generated configuration (issuers, audience, scopes "
             "with exact/hierarchic/wildcard strategy, allowed_algorithms, validity_leeway incl. sub-second and negative, "
